@@ -810,7 +810,7 @@ def gen_graph_grammar(tier):
             if not thorough:
                 for w in words(['2', '.5'], n + 1, n + 1):
                     yield case(fam, 'cnfgen', sub, [], host + [c] + w)
-            for t in ('x', '', 'nan', 'inf', '1e1', '-0', '+1', ' 2', '2 '):
+            for t in ('x', '', 'nan', 'inf', '1e1', '-0', '+1', ' 2', '2 ', '{}', '{x}', '%s', 'a{0}b'):
                 base = ['2'] * n
                 for i in range(n + 1):
                     yield case(fam, 'cnfgen', sub, [],
@@ -922,6 +922,9 @@ def gen_files(tier, F):
         yield case(fam, 'cnfgen', sub, [], host + ['kthlist'])
         yield case(fam, 'cnfgen', sub, [], host + ['{FX}/f_dir.cnf'])
         yield case(fam, 'cnfgen', sub, [], host + ['{FX}'])
+        # missing files whose names contain characters special to format strings
+        for nm in ('graph{1}.gml', 'g{}.kthlist', 'p{a}%s.matrix', '{0}', '%(x)s.dot'):
+            yield case(fam, 'cnfgen', sub, [], host + [nm], core=(nm == 'graph{1}.gml'))
     # every graph sub-command reading each valid / empty / directory file
     for d in F:
         gt = graph_type(d)
